@@ -186,7 +186,7 @@ m = {
         "enable": "--cfg quartiq_miniconf_verif via /verif/harness/.cargo/config.toml [build] rustflags",
         "baseline_off_cmd": "cd /repo && cargo test --workspace --no-fail-fast --offline",
         "source_commits": ["e8855d7"],
-        "fix_commits": ["5c38288", "bc86863", "df164b5", "4be6bf2", "7b5905b"],
+        "fix_commits": ["5c38288", "bc86863", "df164b5", "4be6bf2", "7b5905b", "b33aab1"],
         "add_only": True,
     },
     "engines": [{
@@ -195,7 +195,9 @@ m = {
                           "implementation + independent oracle"}],
     "checks": [chk(p["id"], CLAIMED[p["id"]]) for p in props if p["id"] in CLAIMED],
     "not_applicable": [{"property_id": p["id"], "reason": PENDING} for p in props if p["id"] not in CLAIMED],
-    "notes": "See DESIGN.md.",
+    "notes": "See DESIGN.md. /repo commit 25f5da7 (\"round 1: uncommitted hook changes (driver)\") is not a hook: it is an "
+             "unguarded seeded test change left behind by an interrupted mutation run; b33aab1 (fix:) restores the code "
+             "(DESIGN.md section 12). The only hook commit is e8855d7.",
 }
 json.dump(m, open(os.path.join(V, "MANIFEST.json"), "w"), indent=1)
 print("claimed:", sorted(CLAIMED))
